@@ -19,7 +19,10 @@ def gen_fragment(rnd, name):
         c = rnd.randrange(10)
         if c < 2 or len(written) < 1:
             r = rnd.randrange(nreg)
-            body.append(("rset", r, rnd.choice([0, 1, 2, 3, 5, 7])))
+            if rnd.random() < 0.4:
+                body.append(("clr", r))        # a register that may occur only as the single operand of one-operand instructions
+            else:
+                body.append(("rset", r, rnd.choice([0, 1, 2, 3, 5, 7])))
             written.add(r)
         elif c < 7:
             d = rnd.randrange(nreg)
@@ -49,6 +52,8 @@ def run_fragment(f, ins, mod):
             regs[op[1]] = (regs[op[1]] * regs[op[2]]) % mod
         elif op[0] == "cpy":
             regs[op[1]] = regs[op[2]]
+        elif op[0] == "clr":
+            regs[op[1]] = 0
         elif op[0] == "inc":
             regs[op[1]] = (regs[op[1]] + 1) % mod
         elif op[0] == "dec":
@@ -146,7 +151,7 @@ def eval_graph(g, xs, mod):
     return outs
 
 
-INSTR = {"add": "IAdd", "mult": "IMult", "cpy": "ICpy", "inc": "IInc", "dec": "IDec"}
+INSTR = {"add": "IAdd", "mult": "IMult", "cpy": "ICpy", "inc": "IInc", "dec": "IDec", "clr": "IClr"}
 
 
 def graph_term(g):
@@ -253,8 +258,11 @@ def run(res, a):
     for text, meta in viol[:3]:
         res.violation("C06 " + text, meta)
     if not viol:
-        for text, meta in mism[:2]:
-            res.violation("C06 model and implementation disagree: " + text, meta, nofail=True)
+        # a wrong value computed by the assembled programs (run in the model) is a concrete failing input; a mere difference between
+        # the composed section and the model's is not
+        concrete = [m for m in mism if "does not leave the graph's values" in m[0] or "does not end with the observed outputs" in m[0]]
+        for text, meta in (concrete or mism)[:2]:
+            res.violation("C06 model and implementation disagree: " + text, meta, nofail=not concrete)
     if failed and not viol and not mism:
         res.violation("C06 proof obligation no longer checks: %s" % (failed[:2],), {"obligation": [list(f) for f in failed][:3]}, nofail=True)
     return res.finish("proof")
